@@ -727,6 +727,9 @@ def _fix_life_estimates():
                     _j["mem_gb"] = max(float(_j.get("mem_gb", 0)), 30)
 PROPS["C08"] = mpmc_prop("C08", 8, [(0, "sr", 0, 4), (1, "sr", 0, 4), (1, "tr", 0, 4), (0, "ca", 0, 4), (1, "ca", 0, 4), (1, "cl", 3, 5), (0, "cl", 3, 5), (2, "tr", 0, 4)],
                         extra_quick=MPMC_WITNESSES[:1] + [
+                            H(LIFE, "shared_stream_min_c08", "hold", replay=("shared_stream_min", 0), mask=P(8), est_s=170, est_gb=14, mem_gb=26, timeout=1500,
+                              bounds="SharedStream: 0/1 buffered value; closed by nobody / by the sender / by the stream's own close(); the accepted value "
+                                     "is still delivered by the next poll_next"),
                             H(MPMC, "zst_array_c2_c08", "hold", replay=("mpmc_zst_array", 2), mask=P(8), est_s=15, est_gb=1,
                               bounds="zero-sized payload WITH a Drop impl over ArrayBuf capacity 2: values still buffered are dropped exactly once with the channel"),
                             H(MPMC, "zst_fixedheap_c2_c08", "hold", replay=("mpmc_zst_fixedheap", 2), mask=P(8), est_s=15, est_gb=1,
@@ -1074,7 +1077,7 @@ def match_known(known, prop, harness, decoded, msg):
 DECODERS["mpmc_zst_fixedheap"] = decode_mpmc_zst
 DECODERS["mpmc_zst_array"] = decode_mpmc_zst
 
-DECODERS["shared_stream_min"] = lambda cfg, script: ["shared channel(1): try_send(1)=%s, close()=%s; into_stream(); poll_next twice" % (bool(script[0] & 1) if script else "?", bool(script[1] & 1) if len(script) > 1 else "?")]
+DECODERS["shared_stream_min"] = lambda cfg, script: ["shared channel(1): try_send(1)=%s; closed by %s; into_stream(); poll_next twice" % (bool(script[0] & 1) if script else "?", ["nobody", "the sender (before into_stream)", "the stream's own close()"][script[1] % 3] if len(script) > 1 else "?")]
 DECODERS["mpmc_clear_noalloc"] = decode_raw
 DECODERS["semsh_scenario"] = decode_raw
 DECODERS["shared_mpmc_min"] = lambda cfg, script: ["shared channel(1): pre-filled=%s; send future polled; close()=%s; receive future polled; sender re-polled; try_receive" % (bool(script[0] & 1) if script else "?", bool(script[1] & 1) if len(script) > 1 else "?")]
